@@ -162,6 +162,20 @@ Proof.
   - apply sdiv_m_spec; assumption.
 Qed.
 
+(** * member operators of duration and time_point (unary - +, ++ --, += -= *= /= %=): one machine
+      operation on the stored count each, exact whenever the result is representable *)
+Theorem C12_member_ops : forall w c x, rep_ok w = true -> fits w c = true -> fits w x = true ->
+  (fits w (- c) = true -> neg_m w c = Val (- c))
+  /\ uplus_m w c = Val c
+  /\ (fits w (c + 1) = true -> inc_m w c = Val (c + 1) /\ tp_inc_m w c = Val (c + 1))
+  /\ (fits w (c - 1) = true -> dec_m w c = Val (c - 1) /\ tp_dec_m w c = Val (c - 1))
+  /\ (fits w (c + x) = true -> add_assign_m w c x = Val (c + x) /\ tp_add_assign_m w c x = Val (c + x))
+  /\ (fits w (c - x) = true -> sub_assign_m w c x = Val (c - x) /\ tp_sub_assign_m w c x = Val (c - x))
+  /\ (fits w (c * x) = true -> mul_assign_m w c x = Val (c * x))
+  /\ (x <> 0 -> fits w (Z.quot c x) = true ->
+        div_assign_m w c x = Val (Z.quot c x) /\ mod_assign_m w c x = Val (Z.rem c x)).
+Proof. exact member_ops_spec. Qed.
+
 (** * time_point + duration, duration + time_point, time_point - duration, time_point - time_point *)
 Theorem C12_time_point_arith : forall w1 n1 d1 w2 n2 d2,
   rep_ok w1 = true -> rep_ok w2 = true -> period_ok n1 d1 = true -> period_ok n2 d2 = true ->
@@ -310,7 +324,7 @@ Theorem C12_typedefs :
 Proof. exact typedefs_ok. Qed.
 
 (** * Print Assumptions.  One call costs ~0.6 s on this development and this file is re-checked on every
-      run of ./check, so the 30 theorems above are audited in 6 groups: each group is the conjunction
+      run of ./check, so the 31 theorems above are audited in 6 groups: each group is the conjunction
       (the proof term [conj ...]) of its theorems, and "Closed under the global context" for the group
       means that every theorem in it is closed.  Every theorem of this file is a member of exactly one group. *)
 Definition C12_group_ratio_layer :=
@@ -326,7 +340,7 @@ Definition C12_group_common_type :=
 Print Assumptions C12_group_common_type.
 
 Definition C12_group_arithmetic :=
-  (conj C12_plus (conj C12_minus (conj C12_div (conj C12_mod (conj C12_compare (conj C12_arith_ub_exact (conj C12_scalar_ops C12_time_point_arith))))))).
+  (conj C12_plus (conj C12_minus (conj C12_div (conj C12_mod (conj C12_compare (conj C12_arith_ub_exact (conj C12_scalar_ops (conj C12_time_point_arith C12_member_ops)))))))).
 Print Assumptions C12_group_arithmetic.
 
 Definition C12_group_spec_laws :=
